@@ -10,6 +10,7 @@ import GeoProofs.Lemmas.RelateSpecBBox
 import GeoProofs.Lemmas.RelateSpecSwap
 import GeoProofs.Lemmas.RelateSpecDisjoint
 import GeoProofs.Lemmas.RelateSpecRewrite
+import GeoProofs.Lemmas.RelateSpecReverse
 import Mathlib.Tactic.NormNum
 
 namespace Geo.Proofs.C01
@@ -506,5 +507,108 @@ example (q1 q2 : Poly) (g : Geom) :
     relateSpec g (.multiPolygon [q1, q2]) = relateSpec g (.multiPolygon [q2, q1]) :=
   relateSpec_congr_parts (Spec.PartsEquiv.refl _)
     (Spec.PartsEquiv.perm (List.Perm.refl _) (List.Perm.refl _) (List.Perm.swap _ _ _))
+
+/-! ## 2''. … and of the direction of its rings and curves -/
+
+/-- [T] the intersection vertex of two segments does not depend on their directions; a segment has
+no intersection vertex with itself. -/
+theorem segVertex_swap_left (s t : Pt × Pt) : segVertex s.swap t = segVertex s t := Spec.segVertex_swap_left s t
+
+theorem segVertex_self (s : Pt × Pt) : segVertex s s = [] := Spec.segVertex_self s
+
+/-- [T] the intersection vertices depend only on the *set* of segments. -/
+theorem mem_pairVertices_iff (ss : List (Pt × Pt)) (x : Pt) :
+    x ∈ pairVertices ss ↔ ∃ s ∈ ss, ∃ t ∈ ss, x ∈ segVertex s t := Spec.mem_pairVertices_iff ss x
+
+/-- [T] the atoms of a segment, as a set, do not depend on its direction. -/
+theorem mem_segAtoms_swap (pa pb : Parts) {verts : List Pt} (hn : verts.Nodup) (s : Pt × Pt) (x : Atom) :
+    x ∈ segAtoms pa pb verts s.swap ↔ x ∈ segAtoms pa pb verts s := Spec.mem_segAtoms_swap pa pb hn s x
+
+example (pa pb : Parts) (a b : Pt) (x : Atom) :
+    x ∈ segAtoms pa pb [⟨0, 0⟩, ⟨1, 0⟩] (b, a) ↔ x ∈ segAtoms pa pb [⟨0, 0⟩, ⟨1, 0⟩] (a, b) :=
+  mem_segAtoms_swap pa pb (by simp) (a, b) x
+
+/-- [T] **the matrix does not depend on how either operand is written, segment directions
+included** (`PartsSame`: same undirected segments as sets, same single coordinates and isolated
+points, same point location). -/
+theorem relateParts_same {pa pa' pb pb' : Parts} (ha : Spec.PartsSame pa pa') (hb : Spec.PartsSame pb pb') :
+    relateParts pa pb = relateParts pa' pb' :=
+  (Spec.relateParts_same_left ha pb).trans (Spec.relateParts_same_right pa' hb)
+
+theorem relateSpec_same_parts {a a' b b' : Geom} (ha : Spec.PartsSame (parts a) (parts a'))
+    (hb : Spec.PartsSame (parts b) (parts b')) : relateSpec a b = relateSpec a' b' :=
+  relateParts_same ha hb
+
+/-- [T] members re-written one by one with directions free (`PolySame`: ring start vertex, ring
+direction, hole order; `CurveSame`: direction, closed start vertex) give `PartsSame` operands. -/
+theorem partsSame_members (pts : List Pt) {cs cs' : List (List Pt)} {as as' : List Poly}
+    (hc : List.Forall₂ Spec.CurveSame cs cs') (ha : List.Forall₂ Spec.PolySame as as') :
+    Spec.PartsSame ⟨pts, cs, as⟩ ⟨pts, cs', as'⟩ := Spec.PartsSame.members pts hc ha
+
+/-- [T] polygon with any `PolySame` re-writing: same matrix. -/
+theorem relateSpec_polygon_same {q q' : Poly} (h : Spec.PolySame q q') (g : Geom) :
+    relateSpec (.polygon q) g = relateSpec (.polygon q') g :=
+  relateSpec_same_parts
+    (Spec.PartsSame.members [] List.Forall₂.nil (List.Forall₂.cons h List.Forall₂.nil))
+    (Spec.PartsSame.refl _)
+
+/-- [T] polygon with the exterior ring reversed. -/
+theorem relateSpec_polygon_ext_reverse (ext : List Pt) (ints : List (List Pt)) (g : Geom) :
+    relateSpec (.polygon ⟨ext, ints⟩) g = relateSpec (.polygon ⟨ext.reverse, ints⟩) g :=
+  relateSpec_polygon_same (Spec.PolySame.ext_reverse ext ints) g
+
+/-- [T] polygon with a hole reversed. -/
+theorem relateSpec_polygon_hole_reverse (ext : List Pt) (h1 h2 : List (List Pt)) (r : List Pt) (g : Geom) :
+    relateSpec (.polygon ⟨ext, h1 ++ r :: h2⟩) g = relateSpec (.polygon ⟨ext, h1 ++ r.reverse :: h2⟩) g :=
+  relateSpec_polygon_same (Spec.PolySame.hole_reverse ext h1 h2 r) g
+
+/-- ring start *and* direction *and* hole order at once -/
+example (a b : Pt) (l1 l2 h1 h2 : List Pt) (g : Geom) :
+    relateSpec (.polygon ⟨a :: l1 ++ b :: (l2 ++ [a]), [h1, h2]⟩) g =
+      relateSpec (.polygon ⟨(b :: l2 ++ a :: (l1 ++ [b])).reverse, [h2, h1.reverse]⟩) g :=
+  relateSpec_polygon_same
+    (((Spec.PolySame.of_rewrite (Spec.PolyRewrite.ext_rotate a b l1 l2 [h1, h2])).trans
+      (Spec.PolySame.ext_reverse _ _)).trans
+      ((Spec.PolySame.of_rewrite (Spec.PolyRewrite.holes_perm _ (List.Perm.swap h2 h1 []))).trans
+        (Spec.PolySame.hole_reverse _ [h2] [] h1))) g
+
+/-- [T] multi-polygon with one member re-written. -/
+theorem relateSpec_multiPolygon_member {q q' : Poly} (h : Spec.PolySame q q') (pre post : List Poly) (g : Geom) :
+    relateSpec (.multiPolygon (pre ++ q :: post)) g = relateSpec (.multiPolygon (pre ++ q' :: post)) g :=
+  relateSpec_same_parts
+    (Spec.PartsSame.members [] List.Forall₂.nil (Spec.forall₂_polySame_at h pre post))
+    (Spec.PartsSame.refl _)
+
+/-- [T] line string reversed. -/
+theorem relateSpec_lineString_reverse (cs : List Pt) (g : Geom) :
+    relateSpec (.lineString cs) g = relateSpec (.lineString cs.reverse) g :=
+  relateSpec_same_parts
+    (Spec.PartsSame.members [] (List.Forall₂.cons (Spec.CurveSame.reverse cs) List.Forall₂.nil) List.Forall₂.nil)
+    (Spec.PartsSame.refl _)
+
+/-- [T] line with its end points exchanged. -/
+theorem relateSpec_line_swap (a b : Pt) (g : Geom) : relateSpec (.line a b) g = relateSpec (.line b a) g :=
+  relateSpec_same_parts
+    (Spec.PartsSame.members [] (List.Forall₂.cons (Spec.CurveSame.reverse [a, b]) List.Forall₂.nil) List.Forall₂.nil)
+    (Spec.PartsSame.refl _)
+
+/-- [T] multi-line-string with one member re-written (direction / closed start). -/
+theorem relateSpec_multiLineString_member {c c' : List Pt} (h : Spec.CurveSame c c') (pre post : List (List Pt))
+    (g : Geom) :
+    relateSpec (.multiLineString (pre ++ c :: post)) g = relateSpec (.multiLineString (pre ++ c' :: post)) g :=
+  relateSpec_same_parts
+    (Spec.PartsSame.members [] (Spec.forall₂_curveSame_at h pre post) List.Forall₂.nil)
+    (Spec.PartsSame.refl _)
+
+example (l0 c : List Pt) (g : Geom) :
+    relateSpec (.multiLineString [l0, c]) g = relateSpec (.multiLineString [l0, c.reverse]) g :=
+  relateSpec_multiLineString_member (Spec.CurveSame.reverse c) [l0] [] g
+
+/-- the same in the second position -/
+example (ext : List Pt) (g : Geom) :
+    relateSpec g (.polygon ⟨ext, []⟩) = relateSpec g (.polygon ⟨ext.reverse, []⟩) :=
+  relateSpec_same_parts (Spec.PartsSame.refl _)
+    (Spec.PartsSame.members [] List.Forall₂.nil
+      (List.Forall₂.cons (Spec.PolySame.ext_reverse ext []) List.Forall₂.nil))
 
 end Geo.Proofs.C01
